@@ -241,7 +241,7 @@ impl ChainSim {
     pub fn state(&self) -> (u64, u64, u64) {
         let n = self.blocks.len() as u64;
         let depth = |ks: &[u64]| self.blocks.iter().position(|b| ks.contains(b)).map(|i| n - i as u64).unwrap_or(0);
-        (3 + n, depth(&[1]), depth(&[2, 3, 4]))
+        (3 + n, depth(&[1]), depth(&[2, 3, 4, 5, 6]))
     }
     pub fn good(&self) -> bool {
         let (_, fd, cd) = self.state();
@@ -250,7 +250,7 @@ impl ChainSim {
     pub fn can(&self, kind: u64) -> bool {
         match kind {
             1 => !self.blocks.contains(&1),
-            2 | 3 | 4 => self.blocks.contains(&1) && !self.blocks.iter().any(|b| *b >= 2),
+            2..=6 => self.blocks.contains(&1) && !self.blocks.iter().any(|b| *b >= 2),
             _ => true,
         }
     }
@@ -287,11 +287,10 @@ pub fn gen_onchain_case(rng: &mut Rng) -> Vec<String> {
     let mut pending: Option<Commit> = None;
     let mut cur_hold: Option<Commit> = None;
     let mut cur_cp: Option<Commit> = None;
-    // With the on-chain gate downgraded to a warning the commitment state can advance *after* a commitment
-    // transaction confirmed; reorging that block out then makes the unchanged monitor re-read a commitment that
-    // has become the counterparty's PREVIOUS one and panic (finding F-C05-M1).  Until that is fixed in /repo the
-    // random walk confirms real commitment transactions only while the gate is enforced.
-    let spend_kinds: &[u64] = if pol.errs(BIT_ACTIVE_UTXO) { &[2, 3, 4] } else { &[2] };
+    // what spends the funding outpoint: a plain transaction (reads as a mutual close) or a real commitment
+    // transaction -- the holder's current (3) or validated-but-pending next (6) one, the counterparty's current (4)
+    // or previous, not yet revoked (5) one -- in every filter mode (F-C05-M1 is fixed in /repo, e2a60ca)
+    let spend_kinds: &[u64] = &[2, 3, 4, 5, 6];
     let gate_ok = |sim: &ChainSim, n: u64, pol: &Pol| n == 0 || sim.good() || !pol.errs(BIT_ACTIVE_UTXO);
     // a scripted prefix that puts one side ahead of the other, then the free walk
     let mut script: Vec<&str> = match rng.below(6) {
@@ -604,8 +603,8 @@ impl Group for C05 {
     }
 }
 
-/// Implementation-only companion group: chain events that the unchanged signer cannot digest.
-/// F-C05-M1: the counterparty's PREVIOUS commitment (number `next_counterparty_commit_num - 2`, signed by us, not
+/// Implementation-only companion group: chain events that an earlier /repo could not digest (regression cases).
+/// F-C05-M1 (fixed by e2a60ca): the counterparty's PREVIOUS commitment (number `next_counterparty_commit_num - 2`, signed by us, not
 /// yet revoked by them -- a perfectly legal thing to find on chain) confirms: `ChainMonitor::on_add_block` panics
 /// (`Channel::get_spendable_htlc_indices` unwraps `get_counterparty_commitment_point(n)`, whose branch for the
 /// previous point tests `next == n` instead of `next == n + 2` and so never returns it).
